@@ -176,7 +176,7 @@ func flatNode(n *gen.Node) []*gen.Line {
 
 func checkC07(replay string) {
 	r := base.NewRun("C07")
-	r.Rule = "for diagnostics of generated programs covering all 16 codes: insert ONE @ignore comment (placement x in/out of scope x code-list shape), re-run the real binary and compare every (line, analyzer) with the reference scope model (file / declaration / statement / line scope; ALL>category>code, case-insensitive; TONL01/PKGO01 move to the next unsuppressed use); distinct = distinct (placement, where, list shape, code) combinations judged"
+	r.Rule = "for diagnostics of generated programs covering all 16 codes: insert ONE @ignore comment (placement x in/out of scope x code-list shape), and in a second phase TWO comments (outer declaration/file/compound scope + a second comment before or trailing an earlier statement, same or different code list), re-run the real binary and compare every (line, analyzer) with the reference scope model (file / declaration / statement / line scope; ALL>category>code, case-insensitive; TONL01/PKGO01 move to the next unsuppressed use); distinct = distinct (placement, where, list shape, code) combinations judged"
 	r.Assume = []string{"scope model on the generator's statement extents, one statement per line", "placements the statement does not describe are not generated here (FREE)"}
 	nProg := r.Pick(24, 300)
 	perProg := r.Pick(48, 160)
@@ -257,6 +257,88 @@ func checkC07(replay string) {
 			}
 			if k < 2 && pi < 3 {
 				r.Sample(map[string]any{"placement": desc, "code": code, "diagnostics_before": len(pr0.res.Diags), "diagnostics_after": len(pr.res.Diags), "mismatches": len(pr.mm)})
+			}
+		}
+		// two comments in one file: an outer scope (declaration or file) and a second comment inside or next to it, with the
+		// same or a different code list — the scopes are independent of each other
+		for k := 0; k < perProg/3; k++ {
+			code := codes[(k*5+pi)%len(codes)]
+			ids := byCode[code]
+			lineID := ids[rng.Intn(len(ids))]
+			bt := gen.Build(spec)
+			outer := ignCase{placement: []string{"lead-decl", "file", "lead-decl-gap", "lead-compound"}[k%4], where: "in", list: []int{0, 1, 2}[k%3]}
+			ok, d1 := applyIgnore(bt, lineID, outer, code, rng)
+			if !ok {
+				continue
+			}
+			// the second comment: in front of / trailing an EARLIER statement of the same top-level declaration (or of the file)
+			var target *gen.Line
+			for _, st := range gen.Statements(bt.P) {
+				for _, l := range append(append([]*gen.Line{}, st.N.Pre...), st.N.Post...) {
+					if l.ID == lineID {
+						target = l
+					}
+				}
+			}
+			file, chain := bt.P.PathTo(target)
+			if file == nil {
+				continue
+			}
+			var earlier []gen.StmtRef
+			for _, st := range gen.Statements(bt.P) {
+				if st.File == file && st.IsStatement() && len(st.N.Pre) > 0 && st.N.Pre[0].ID < lineID && len(st.N.Lead) == 0 {
+					inSameDecl := false
+					_, ch := bt.P.PathTo(st.N.Pre[0])
+					if len(ch) > 0 && ch[0].N == chain[0].N {
+						inSameDecl = true
+					}
+					if inSameDecl || outer.placement == "file" {
+						earlier = append(earlier, st)
+					}
+				}
+			}
+			if len(earlier) == 0 {
+				continue
+			}
+			st := earlier[rng.Intn(len(earlier))]
+			text2, l2 := gen.CodeList(outer.list, code, rng) // same list as the outer comment ...
+			if k%2 == 1 {
+				text2, l2 = gen.CodeList((outer.list+1+rng.Intn(5))%gen.NCodeLists(), code, rng) // ... or another one
+			}
+			d2 := "second-lead-stmt"
+			if k%3 == 2 && st.N.Pre[0].Trail == nil {
+				st.N.Pre[0].Trail = &gen.Ignore{Codes: text2}
+				d2 = "second-trailing"
+			} else {
+				st.N.Lead = append(st.N.Lead, &gen.Ignore{Codes: text2})
+			}
+			same := "same-list"
+			if k%2 == 1 {
+				same = "other-list:" + l2
+			}
+			desc := d1 + "+" + d2 + "/" + same
+			pr := runProgram(bt, gen.RenderOpts{}, cfg, false)
+			r.Eval(1)
+			if pr.crashed {
+				r.Violate("crash/"+crashKey(pr.res.Stderr), "program with two @ignore comments "+desc+" crashed: "+pr.crashWhy, replayFiles(pr, nil))
+				continue
+			}
+			mu.Lock()
+			combos["pair/"+outer.placement+"/"+d2+"/"+same+"/"+code]++
+			mu.Unlock()
+			seen := map[string]bool{}
+			for _, m := range pr.mm {
+				parts := strings.SplitN(m.Key, "/", 3)
+				dir := "not-suppressed-or-spurious"
+				if parts[1] == "missed" {
+					dir = "over-suppressed-or-missed"
+				}
+				key := fmt.Sprintf("IGN/pair/%s+%s/%s/%s", outer.placement, d2, dir, parts[2])
+				if seen[key] {
+					continue
+				}
+				seen[key] = true
+				r.Violate(key, fmt.Sprintf("program %d, two @ignore comments (%s) around a %s diagnostic (line id %d): %s", pi, desc, code, lineID, m.Detail), replayFiles(pr, map[string]string{"case.txt": desc + " code=" + code}))
 			}
 		}
 	})
